@@ -371,4 +371,36 @@ theorem adjust_unblocks (hmp : 0 < mp ∧ mp ≤ channelMaxPacket) {s : Sys} (h 
 example : ∃ s, Reachable [1, 2, 3] 2 s ∧ s.readSoFar = [1, 2] ∧ s.toSend = [3] :=
   ⟨_, .step (.read 5) (.step .deliverData (.step .send .init rfl) rfl) rfl, rfl, rfl⟩
 
+
+/-! ## non-vacuity of the multi-stream / multi-channel theorems -/
+
+
+/-- the set-up of the examples satisfies `Setup` -/
+theorem setup_ex : Setup 2 9 [(0, [1, 2, 3]), (1, [9])] :=
+  ⟨by decide, by decide, ⟨by decide, by decide⟩, by decide⟩
+
+/-- non-vacuity of `adjust_unblocks_all`: window exhausted, both writers parked, wire empty, reader drained — reachable
+    under Broadcast; the theorem then yields the adjust step after which both writers can send -/
+example : ∃ s, ReachableC unparkAll signalInit s ∧ s.win = 0 ∧ s.dataWire = [] ∧ s.unread0 = [] ∧ s.unread1 = [] ∧
+    (∀ st ∈ s.streams, st.parked = true) ∧
+    ∃ s', stepC unparkAll s .deliverAdj = some s' ∧ 0 < s'.win ∧ ∀ st ∈ s'.streams, st.parked = false := by
+  have h : ∃ s, runC unparkAll signalInit [.send 0, .send 0, .send 1, .deliverData, .read 0 2] = some s ∧ s.win = 0 ∧
+      s.dataWire = [] ∧ s.unread0 = [] ∧ s.unread1 = [] ∧ (∀ st ∈ s.streams, st.parked = true) := by
+    simp [runC, signalInit, SysC.init, stepC, nextPacket, reserve, minPayloadSize, handleData, Rcv.init,
+      readExt, bufRead, adjustWindow, addWin, unparkAll, channelMaxPacket, channelWindowSize]
+  obtain ⟨s, hr, h1, h2, h3, h4, h5⟩ := h
+  have hreach : ReachableC unparkAll (SysC.init 2 9 [(0, [1, 2, 3]), (1, [9])]) s := reachableC_of_run .init _ hr
+  obtain ⟨s', hs', hw, hun, _⟩ := adjust_unblocks_all setup_ex hreach h1 h2 h3 h4
+  exact ⟨s, hreach, h1, h2, h3, h4, h5, s', hs', hw, hun⟩
+
+/-- non-vacuity of `never_exceeds_window_multi`: a send step that puts a packet on the wire -/
+example : ∃ s', stepC unparkAll signalInit (.send 0) = some s' ∧ s'.used ≠ signalInit.used := by
+  simp [signalInit, SysC.init, stepC, nextPacket, reserve, minPayloadSize]
+
+/-- non-vacuity of the multi-channel lifting: a connection with two channels; channel 1 sends while channel 0 is idle -/
+example : ∃ m, ReachableM unparkAll (SysM.init 2 [(9, [(0, [1])]), (9, [(0, [7, 8])])]) m ∧
+    m.dataWire = [(1, 0, [7, 8])] :=
+  ⟨_, .step (.send 1 0) .init rfl, rfl⟩
+
+
 end XC.C35
